@@ -148,7 +148,8 @@ void ThreadLink::writeArray(const char *dest, const char *args, const rtosc_arg_
 void ThreadLink::raw_write(const char *msg)
 {
     const size_t len = rtosc_message_length(msg, -1);//assumed valid
-    if(ring_write_size(ring) >= len)
+    //messages longer than MaxMsg would overflow read_buffer in read()
+    if(len <= MaxMsg && ring_write_size(ring) >= len)
         ring_write(ring,msg,len);
 }
 
